@@ -972,6 +972,14 @@ func main() {
 		if err := run.LoadReplay(&k); err != nil {
 			panic(err)
 		}
+		if k.Kind == "loop" {
+			var lc loopCase
+			if err := run.LoadReplay(&lc); err != nil {
+				panic(err)
+			}
+			runLoop(run, e, lc)
+			return
+		}
 		if k.Kind == "dkg" {
 			var pc prodCase
 			if err := run.LoadReplay(&pc); err != nil {
@@ -990,6 +998,11 @@ func main() {
 	files := run.CorpusFiles()
 	sort.Strings(files)
 	for _, f := range files {
+		if lc, ok := loadLoopCorpus(f); ok {
+			run.Dist["corpus"]++
+			runLoop(run, e, lc)
+			continue
+		}
 		if pc, ok := loadProducerCorpus(f); ok {
 			run.Dist["corpus"]++
 			runProducer(run, servers, pc)
@@ -1005,6 +1018,12 @@ func main() {
 	}
 	for _, c := range forced() {
 		runHist(run, e, c)
+	}
+	for _, lc := range forcedLoops() {
+		runLoop(run, e, lc)
+	}
+	for k, nl := 0, run.Scale(4, 60); k < nl; k++ {
+		runLoop(run, e, randomLoop(run.RNG))
 	}
 	for _, pc := range forcedProducer() {
 		runProducer(run, servers, pc)
